@@ -118,7 +118,8 @@ func (s *Stream) SetCallbacks(callback StreamCallbacks) error {
 		return ErrStreamCallbackHadExisted
 	}
 	s.setCallbacks(callback)
-	atomic.StoreUint32(&s.callbackInProcess, 0)
+	// data that arrived before the callbacks were installed must not wait for the next arrival
+	s.startCallbackGoroutine()
 	return nil
 }
 
@@ -416,6 +417,13 @@ func (s *Stream) fillDataToReadBuffer(buf bufferSliceWrapper) error {
 	}
 	// Unblock any readers
 	asyncNotify(s.recvNotifyCh)
+	s.startCallbackGoroutine()
+	return nil
+}
+
+// startCallbackGoroutine starts the goroutine that offers the received data to OnData, unless callbacks
+// are not installed or such a goroutine already owns callbackInProcess.
+func (s *Stream) startCallbackGoroutine() {
 	callback := s.getCallbacks()
 	if callback != nil {
 		// callback OnData maybe block, make sure OnData called once and chan recvNotifyCh be notified
@@ -444,8 +452,6 @@ func (s *Stream) fillDataToReadBuffer(buf bufferSliceWrapper) error {
 			})
 		}
 	}
-
-	return nil
 }
 
 // SetDeadline sets the read timeout for blocked and future Read calls.
